@@ -89,6 +89,15 @@ CLAIMS = {
          'The clause "retry after more data behaves as if all data had been present" is decided only through these conditions (a split inside '
          'macroblock data ends the picture successfully, so that clause is vacuous there).',
     technique='CFG reachability + dominance rules and interprocedural mod/ref effect summaries over MIR', ref='6/C05'),
+ 'C02': dict(
+    text='PARTIAL BY DESIGN: sample-exact equality of the f32 row/column IDCT pipeline with the ideal transform (and hence the end-to-end pixel statement) is NOT decided - no '
+         'static argument in reach. Decided are the structural conditions of the mechanism list, each necessary for the reconstruction: Z DEZIGZAG_MAPPING (folded const) = the '
+         'zig-zag scan, a bijection; D the macroblock body: block k of macroblock n is decoded with CBP entry k and dequantised into its plane\'s level array at '
+         'origin + (8(k&1), 8(k>>1)) (chroma origin/2), origin = ((n mod mbpl)16, (n div mbpl)16), mbpl = ceil(w/16) tabulated over all u16 widths, with the blocks-per-line '
+         'idct_channel later uses with that array, that plane\'s samples and row length; level arrays 4 mbpl mbh / mbpl mbh; inverse_rle\'s block index; H quantizer tracking '
+         '(clamp(q + dquant, 1, 31) once per coded macroblock before its six blocks); and re-run on this tree: dequantisation form + INTRADC mapping (C11 A, C), the IDCT '
+         'clauses (C10 A, B, C, E). Plane allocation is C13 P.',
+    technique='const-table folding; call-site agreement over loop-index-normalised def-use terms (polynomial normal form, closed forms tabulated over the full u16 domain); dominance for update-before-use', ref='6/C02'),
  'C06': dict(
     text='Static, every combination of header field values at once: each of the 15 header sub-parsers and decode_picture is abstracted from MIR into a decision '
          'table (R: every consuming reader call with its width and presence condition, in bitstream order; T: every leaf of every value it can return with the '
